@@ -160,8 +160,13 @@ func c06Probe(lo, hi int) {
 	if !stillThere {
 		vfAssert(!hasTTL, name+"-no-deadline-without-key")
 	} else if !expired {
-		switch name {
-		case "set", "persist", "del", "rename", "mset", "setex", "sunionstore", "sinterstore", "sdiffstore", "lmove", "smove":
+		vetoedSet := name == "set" && len(c.args) == 4 && (c.args[3] == "nx" || c.args[3] == "keepttl")
+		switch {
+		case vetoedSet:
+			// SET ... NX on an existing key changes nothing; KEEPTTL keeps the deadline
+			vfAssert(hasTTL && ttl == now+delta, name+"-"+c.args[3]+"-deadline-kept")
+		case name == "set" || name == "persist" || name == "del" || name == "rename" || name == "mset" || name == "setex" ||
+			name == "sunionstore" || name == "sinterstore" || name == "sdiffstore" || name == "lmove" || name == "smove":
 			// may legitimately remove or move the deadline (C01 / C13 decide which)
 		default:
 			vfAssert(hasTTL && ttl == now+delta, name+"-deadline-kept-by-non-overwriting-command")
